@@ -598,11 +598,33 @@ def property_check(meta, seeds_base=12345, n_seeds=150):
     return None
 
 
+_probe_cache = {}
+
+
+def family_probe(meta):
+    """near variants across the model family, evaluated once per process: the pure / strongly biased models on the
+    mismatching case's code (zero-probability Paulis, frequencies) and a multi-step run (flip rules)"""
+    key = json.dumps(meta.get('code'))
+    if key not in _probe_cache:
+        found = None
+        for mspec in (('BitFlipErrorModel', []), ('PhaseFlipErrorModel', []), ('BitPhaseFlipErrorModel', []),
+                      ('BiasedDepolarizingErrorModel', [100.0, 'Z']), ('BiasedDepolarizingErrorModel', [100.0, 'X'])):
+            found = property_check({'model': mspec, 'code': meta['code'], 'p': 0.5, 'kind': 'run', 'T': 2, 'q': 0.3,
+                                    'seed': 777}, n_seeds=80)
+            if found:
+                break
+        _probe_cache[key] = found
+    return _probe_cache[key]
+
+
 def search(m):
     meta = m.get('meta') or {}
     if 'model' not in meta:
         return None
     found = property_check(meta)
+    if found:
+        return found
+    found = family_probe(meta)
     if found:
         return found
     # near variants: the same model at the other probabilities
@@ -632,6 +654,4 @@ def replay(ctx, path):
                 r = None; print('replay error', repr(ex)[:200])
             print('replay', {k: meta.get(k) for k in ('model', 'code', 'p', 'q', 'T')}, '->', r)
             bad += bool(r)
-    if bad:
-        print('VIOLATION property=C17 replay={}'.format(path))
-    return 1 if bad else 0
+    return 1 if bad else 0       # core.do_replay prints the VIOLATION line (and re-runs the whole check when 0)
